@@ -550,6 +550,7 @@ static void runProg(const Prog& p, int tid, int fill, Digest& d, Info& inf)
                         st = b.status();
                      }
                      if(st == Solver::ABORT_TIME) inf.tainted = true;
+                     if(b.numPrecisionBoosts() > 0) inf.boosts++;
                      d.push_back({L2 + "solve", std::string(statusName(st)) + " " + std::to_string(b.numIterations()) + " " + hexd(b.objValueReal())});
                   }
                }
@@ -584,6 +585,7 @@ static void runProg(const Prog& p, int tid, int fill, Digest& d, Info& inf)
             if(st == Solver::ABORT_TIME) inf.tainted = true;
             inf.solves++;
             if(c2.numIterations() > 0) inf.solvesWithIter++;
+            if(c2.numPrecisionBoosts() > 0) inf.boosts++;
             observeSolution(c2, p, d, L + "copy.");
             if(o.i(1))
             {
@@ -835,28 +837,10 @@ static void genOps(Case& c, int t, int mode, const LP& lp)
          c.recs.push_back(op("basis").add(R(0, 1)));
          break;
       case 17:
-         // known finding copy-uninit-members: SoPlexBase's copy constructor / operator= leave _optimizeCalls,
-         // _unscaleCalls and the solver's storeBasisSimplexFreq uninitialised: a copied object solves
-         // nondeterministically (persistent scaling re-applied or not) and divides by zero with PRECISION_BOOSTING.
-         // Exclude exactly the copy operation.
-         if(knownKey("copy-uninit-members"))
-         {
-            ev().count("excluded_known.copy-uninit-members");
-            c.recs.push_back(op("query"));
-         }
-         else
-         {
-            // known finding assign-dangling-pointers: SoPlexBase::operator= leaves pointers into the source object
-            // (LP scaler, basis matrix vectors, ...); using the target after the source died reads freed memory.
-            // Exclude exactly the assignment half of the operation (copy construction stays).
-            int assign = R(0, 1);
-            if(assign && knownKey("assign-dangling-pointers"))
-            {
-               assign = 0;
-               ev().count("excluded_known.assign-dangling-pointers");
-            }
-            c.recs.push_back(op("clone").add(assign));
-         }
+         // copy construction + solve of the copy, optionally assignment back (the copy/assignment defects this
+         // operation found - uninitialised members, pointers into the source - are fixed: replays/C18/tsan__copy-*,
+         // tsan__assign-*)
+         c.recs.push_back(op("clone").add(R(0, 1)));
          break;
       case 18:
          c.recs.push_back(op("timer").add(R(0, 2)));
@@ -1160,6 +1144,11 @@ static std::string frameFunction(const std::string& block)
       size_t path = line.find(" /", sp);
       if(path == std::string::npos) continue;
       std::string raw = line.substr(sp + 1, path - sp - 1), fn;
+      if(raw.compare(0, 2, "0x") == 0)   // ASan/UBSan frame format: "#0 0xADDR in function file:line"
+      {
+         size_t in = raw.find(" in ");
+         if(in != std::string::npos) raw = raw.substr(in + 4);
+      }
       int depth = 0;
       for(char ch : raw)   // drop template argument lists, then the parameter list
       {
@@ -1180,10 +1169,18 @@ static std::string tsanSignature(const std::string& t)
    if(w == std::string::npos)
    {
       w = t.find("ERROR: ThreadSanitizer:");
-      if(w == std::string::npos) return "";
+      if(w == std::string::npos) w = t.find("ERROR: AddressSanitizer:");   // asan:c18 built by hand
+      if(w == std::string::npos)
+      {
+         size_t u = t.find("runtime error:");
+         if(u == std::string::npos) return "";
+         size_t ue = t.find('\n', u);
+         return "UndefinedBehaviorSanitizer: " + shortv(t.substr(u + 15, ue == std::string::npos ? std::string::npos : ue - (u + 15))) + " in " + frameFunction(t.substr(u));
+      }
       size_t eol = t.find('\n', w);
       std::string l = t.substr(w + 7, eol == std::string::npos ? std::string::npos : eol - (w + 7));
       size_t on = l.find(" on unknown address");
+      if(on == std::string::npos) on = l.find(" on address");
       if(on != std::string::npos) l = l.substr(0, on);
       return l + " in " + frameFunction(t.substr(w));
    }
